@@ -151,42 +151,48 @@ theorem runOps_refines : ∀ (ops : List FileOp) (fs : Fs) (fd : Fd) (c : Bytes)
 
 /-! ### the kernel path walk -/
 
-theorem walk_cons (fs : Fs) (fuel : Nat) (cur : CPath) (c : Name) (rest : List Name) (fo : Bool) :
-    walk fs (fuel + 1) cur (c :: rest) fo =
-      if c = [46] then walk fs fuel cur rest fo
-      else if c = dotdot then walk fs fuel cur.dropLast rest fo
+theorem walkAux_cons (fs : Fs) (k : CPath → List Name → Bool → Res) (cur : CPath) (c : Name) (rest : List Name) (fo : Bool) :
+    walkAux fs k cur (c :: rest) fo =
+      if c = [46] then walkAux fs k cur rest fo
+      else if c = dotdot then walkAux fs k cur.dropLast rest fo
       else
         match fs.get (cur ++ [c]) with
         | none => if rest = [] then .missing cur c else .err .enoent
-        | some .dir => walk fs fuel (cur ++ [c]) rest fo
+        | some .dir => walkAux fs k (cur ++ [c]) rest fo
         | some (.file d) => if rest = [] then .found (cur ++ [c]) (.file d) else .err .enotdir
         | some (.link t) =>
           if rest = [] ∧ fo = false then .found (cur ++ [c]) (.link t)
-          else walk fs fuel (if startsWith47 t then [] else cur) (chunks t ++ rest) fo := by
-  simp only [walk]
+          else k (if startsWith47 t then [] else cur) (chunks t ++ rest) fo := by
+  simp only [walkAux]
   split <;> rfl
 
 theorem append_singleton_ne_nil (cur : CPath) (c : Name) : cur ++ [c] ≠ [] := by simp
 
-/-- where the walk reports a missing last component there is nothing -/
-theorem walk_missing_get (fs : Fs) : ∀ (fuel : Nat) (cur : CPath) (comps : List Name) (fo : Bool) (parent : CPath) (name : Name),
-    walk fs fuel cur comps fo = .missing parent name → fs.get (parent ++ [name]) = none := by
+/-- lift a property of the continuation through the ELOOP budget -/
+theorem walk_lift (fs : Fs) (P : (CPath → List Name → Bool → Res) → Prop)
+    (h0 : P (fun _ _ _ => .err .eloop)) (hstep : ∀ k, P k → P (walkAux fs k)) : ∀ fuel, P (walk fs fuel) := by
   intro fuel
   induction fuel with
-  | zero =>
-    intro cur comps fo parent name h
-    cases comps <;> simp [walk] at h
-  | succ fuel ih =>
-    intro cur comps fo parent name h
-    cases comps with
-    | nil => simp [walk] at h
-    | cons c rest =>
-      rw [walk_cons] at h
+  | zero => exact hstep _ h0
+  | succ fuel ih => exact hstep _ ih
+
+/-- where the walk reports a missing last component there is nothing -/
+theorem walk_missing_get (fs : Fs) (fuel : Nat) : ∀ (cur : CPath) (comps : List Name) (fo : Bool) (parent : CPath) (name : Name),
+    walk fs fuel cur comps fo = .missing parent name → fs.get (parent ++ [name]) = none := by
+  apply walk_lift fs (fun k => ∀ (cur : CPath) (comps : List Name) (fo : Bool) (parent : CPath) (name : Name),
+    k cur comps fo = .missing parent name → fs.get (parent ++ [name]) = none)
+  · intro _ _ _ _ _ h; simp at h
+  · intro k hk cur comps
+    induction comps generalizing cur with
+    | nil => intro fo parent name h; simp [walkAux] at h
+    | cons c rest ih =>
+      intro fo parent name h
+      rw [walkAux_cons] at h
       by_cases h1 : c = [46]
-      · rw [if_pos h1] at h; exact ih _ _ _ _ _ h
+      · rw [if_pos h1] at h; exact ih _ _ _ _ h
       · rw [if_neg h1] at h
         by_cases h2 : c = dotdot
-        · rw [if_pos h2] at h; exact ih _ _ _ _ _ h
+        · rw [if_pos h2] at h; exact ih _ _ _ _ h
         · rw [if_neg h2] at h
           cases hg : fs.get (cur ++ [c]) with
           | none =>
@@ -198,40 +204,38 @@ theorem walk_missing_get (fs : Fs) : ∀ (fuel : Nat) (cur : CPath) (comps : Lis
           | some e =>
             simp only [hg] at h
             cases e with
-            | dir => (try dsimp only at h); (try dsimp only); exact ih _ _ _ _ _ h
+            | dir => (try dsimp only at h); exact ih _ _ _ _ h
             | file d =>
-              (try dsimp only at h); (try dsimp only)
+              (try dsimp only at h)
               by_cases hr : rest = [] <;> simp [hr] at h
             | link t =>
-              (try dsimp only at h); (try dsimp only)
+              (try dsimp only at h)
               by_cases hr : rest = [] ∧ fo = false
               · simp [hr] at h
-              · rw [if_neg hr] at h; exact ih _ _ _ _ _ h
+              · rw [if_neg hr] at h; exact hk _ _ _ _ _ h
 
 /-- after an entry (no link) has been made where the walk reported a missing last component, the same path
     finds it — when the first walk did not follow a final link, or both walks use the same mode -/
-theorem walk_after_create (fs : Fs) (e : Entry) (he : ∀ t, e ≠ .link t) :
-    ∀ (fuel : Nat) (cur : CPath) (comps : List Name) (fo fo' : Bool) (parent : CPath) (name : Name),
+theorem walk_after_create (fs : Fs) (e : Entry) (he : ∀ t, e ≠ .link t) (fuel : Nat) :
+    ∀ (cur : CPath) (comps : List Name) (fo fo' : Bool) (parent : CPath) (name : Name),
     (fo = false ∨ fo' = fo) →
     walk fs fuel cur comps fo = .missing parent name →
     walk (fs.set (parent ++ [name]) e) fuel cur comps fo' = .found (parent ++ [name]) e := by
-  intro fuel
   induction fuel with
   | zero =>
-    intro cur comps fo fo' parent name _ h
-    cases comps <;> simp [walk] at h
-  | succ fuel ih =>
-    intro cur comps fo fo' parent name hfo h
-    have hnone := walk_missing_get fs _ _ _ _ _ _ h
-    cases comps with
-    | nil => simp [walk] at h
-    | cons c rest =>
-      rw [walk_cons] at h ⊢
+    intro cur comps
+    show ∀ fo fo' parent name, _ → walkAux fs _ cur comps fo = _ → walkAux _ _ cur comps fo' = _
+    induction comps generalizing cur with
+    | nil => intro fo fo' parent name _ h; simp [walkAux] at h
+    | cons c rest ih =>
+      intro fo fo' parent name hfo h
+      have hnone := walk_missing_get fs 0 _ _ _ _ _ h
+      rw [walkAux_cons] at h ⊢
       by_cases h1 : c = [46]
-      · rw [if_pos h1] at h ⊢; exact ih _ _ _ _ _ _ hfo h
+      · rw [if_pos h1] at h ⊢; exact ih _ _ _ _ _ hfo h
       · rw [if_neg h1] at h ⊢
         by_cases h2 : c = dotdot
-        · rw [if_pos h2] at h ⊢; exact ih _ _ _ _ _ _ hfo h
+        · rw [if_pos h2] at h ⊢; exact ih _ _ _ _ _ hfo h
         · rw [if_neg h2] at h ⊢
           rw [get_set fs _ _ _ (append_singleton_ne_nil parent name)]
           cases hg : fs.get (cur ++ [c]) with
@@ -243,7 +247,7 @@ theorem walk_after_create (fs : Fs) (e : Entry) (he : ∀ t, e ≠ .link t) :
               subst hr
               simp only [if_true]
               cases e with
-              | dir => simp [walk]
+              | dir => simp [walkAux]
               | file d => simp
               | link t => exact absurd rfl (he t)
             · simp [hr] at h
@@ -253,7 +257,49 @@ theorem walk_after_create (fs : Fs) (e : Entry) (he : ∀ t, e ≠ .link t) :
               intro heq; rw [heq, hnone] at hg; simp at hg
             rw [if_neg hne]
             cases e0 with
-            | dir => (try dsimp only at h); (try dsimp only); exact ih _ _ _ _ _ _ hfo h
+            | dir => (try dsimp only at h); (try dsimp only); exact ih _ _ _ _ _ hfo h
+            | file d => (try dsimp only at h); (try dsimp only); by_cases hr : rest = [] <;> simp [hr] at h
+            | link t =>
+              (try dsimp only at h); (try dsimp only)
+              by_cases hr : rest = [] ∧ fo = false
+              · simp [hr] at h
+              · rw [if_neg hr] at h; simp at h
+  | succ fuel ihf =>
+    intro cur comps
+    show ∀ fo fo' parent name, _ → walkAux fs _ cur comps fo = _ → walkAux _ _ cur comps fo' = _
+    induction comps generalizing cur with
+    | nil => intro fo fo' parent name _ h; simp [walkAux] at h
+    | cons c rest ih =>
+      intro fo fo' parent name hfo h
+      have hnone := walk_missing_get fs (fuel + 1) _ _ _ _ _ h
+      rw [walkAux_cons] at h ⊢
+      by_cases h1 : c = [46]
+      · rw [if_pos h1] at h ⊢; exact ih _ _ _ _ _ hfo h
+      · rw [if_neg h1] at h ⊢
+        by_cases h2 : c = dotdot
+        · rw [if_pos h2] at h ⊢; exact ih _ _ _ _ _ hfo h
+        · rw [if_neg h2] at h ⊢
+          rw [get_set fs _ _ _ (append_singleton_ne_nil parent name)]
+          cases hg : fs.get (cur ++ [c]) with
+          | none =>
+            simp only [hg] at h
+            by_cases hr : rest = []
+            · simp only [hr, if_true, Res.missing.injEq] at h
+              obtain ⟨rfl, rfl⟩ := h
+              subst hr
+              simp only [if_true]
+              cases e with
+              | dir => simp [walkAux]
+              | file d => simp
+              | link t => exact absurd rfl (he t)
+            · simp [hr] at h
+          | some e0 =>
+            simp only [hg] at h
+            have hne : cur ++ [c] ≠ parent ++ [name] := by
+              intro heq; rw [heq, hnone] at hg; simp at hg
+            rw [if_neg hne]
+            cases e0 with
+            | dir => (try dsimp only at h); (try dsimp only); exact ih _ _ _ _ _ hfo h
             | file d => (try dsimp only at h); (try dsimp only); by_cases hr : rest = [] <;> simp [hr] at h
             | link t =>
               (try dsimp only at h); (try dsimp only)
@@ -265,38 +311,38 @@ theorem walk_after_create (fs : Fs) (e : Entry) (he : ∀ t, e ≠ .link t) :
                   · intro hh; exact hr ⟨hh.1, hf⟩
                   · rw [hf]; exact hr
                 rw [if_neg hr']
-                exact ih _ _ _ _ _ _ hfo h
+                exact ihf _ _ _ _ _ _ hfo h
 
 /-- a walk that ends in "missing" without following a final link ends the same way when it may follow one -/
-theorem walk_missing_follow (fs : Fs) : ∀ (fuel : Nat) (cur : CPath) (comps : List Name) (parent : CPath) (name : Name),
+theorem walk_missing_follow (fs : Fs) (fuel : Nat) : ∀ (cur : CPath) (comps : List Name) (parent : CPath) (name : Name),
     walk fs fuel cur comps false = .missing parent name → walk fs fuel cur comps true = .missing parent name := by
-  intro fuel
-  induction fuel with
-  | zero => intro cur comps parent name h; cases comps <;> simp [walk] at h
-  | succ fuel ih =>
-    intro cur comps parent name h
-    cases comps with
-    | nil => simp [walk] at h
-    | cons c rest =>
-      rw [walk_cons] at h ⊢
+  apply walk_lift fs (fun k => ∀ (cur : CPath) (comps : List Name) (parent : CPath) (name : Name),
+    k cur comps false = .missing parent name → k cur comps true = .missing parent name)
+  · intro _ _ _ _ h; simp at h
+  · intro k hk cur comps
+    induction comps generalizing cur with
+    | nil => intro parent name h; simp [walkAux] at h
+    | cons c rest ih =>
+      intro parent name h
+      rw [walkAux_cons] at h ⊢
       by_cases h1 : c = [46]
-      · rw [if_pos h1] at h ⊢; exact ih _ _ _ _ h
+      · rw [if_pos h1] at h ⊢; exact ih _ _ _ h
       · rw [if_neg h1] at h ⊢
         by_cases h2 : c = dotdot
-        · rw [if_pos h2] at h ⊢; exact ih _ _ _ _ h
+        · rw [if_pos h2] at h ⊢; exact ih _ _ _ h
         · rw [if_neg h2] at h ⊢
           cases hg : fs.get (cur ++ [c]) with
           | none => simp only [hg] at h ⊢; exact h
           | some e0 =>
             simp only [hg] at h
             cases e0 with
-            | dir => (try dsimp only at h); (try dsimp only); exact ih _ _ _ _ h
+            | dir => (try dsimp only at h); (try dsimp only); exact ih _ _ _ h
             | file d => (try dsimp only at h); (try dsimp only); exact h
             | link t =>
               (try dsimp only at h); (try dsimp only)
               by_cases hr : rest = []
               · simp [hr] at h
               · simp only [hr, false_and, if_false] at h ⊢
-                exact ih _ _ _ _ h
+                exact hk _ _ _ _ h
 
 end Nstd.Path
